@@ -219,8 +219,13 @@ func runC03(c c03Case) Verdict {
 					}
 					if rec != nil {
 						w := rec.writes()[writesBefore:]
-						if len(w) != 1 || !strings.HasPrefix(w[0], "set "+st.Var+" ") {
-							return failf("a successful assignment to $%s must write exactly that variable once, storer saw %v: %s", st.Var, w, describe(i))
+						if len(w) == 0 {
+							return failf("a successful assignment to $%s did not write to the supplied storer: %s", st.Var, describe(i))
+						}
+						for _, one := range w {
+							if !strings.HasPrefix(one, "set "+st.Var+" ") {
+								return failf("an assignment to $%s wrote something else to the storer: %v: %s", st.Var, w, describe(i))
+							}
 						}
 					}
 				}
